@@ -80,3 +80,35 @@ func (r *FileRestorer) verifLemmaBeforeClosingToken(last dst.Node, after dst.Spa
 	r.cursor += token.Pos(tokenLen) // the closing token
 	return k
 }
+
+// ---------------------------------------------------------------------------------------------
+// packagePathOrderLess is a strict total order (C07): the lemmas are harness functions whose only
+// content is calls of the real function; their postconditions are the order laws.
+
+//@ func lemmaOrderIrreflexive
+//@ ensures irreflexive: !result
+func lemmaOrderIrreflexive(a string) bool { return packagePathOrderLess(a, a) }
+
+//@ func lemmaOrderAsymmetric
+//@ ensures asymmetric: !result
+func lemmaOrderAsymmetric(a, b string) bool {
+	return packagePathOrderLess(a, b) && packagePathOrderLess(b, a)
+}
+
+//@ func lemmaOrderTransitive
+//@ ensures transitive: result
+func lemmaOrderTransitive(a, b, c string) bool {
+	if packagePathOrderLess(a, b) && packagePathOrderLess(b, c) {
+		return packagePathOrderLess(a, c)
+	}
+	return true
+}
+
+//@ func lemmaOrderTotal
+//@ ensures total: result
+func lemmaOrderTotal(a, b string) bool {
+	if a == b {
+		return true
+	}
+	return packagePathOrderLess(a, b) || packagePathOrderLess(b, a)
+}
